@@ -97,6 +97,8 @@ func (r *addrsRecord) clean(now time.Time) (chgd bool) {
 	if addrsLen == 0 {
 		// this is a ghost record; let's signal it has to be written.
 		// flush() will take care of doing the deletion.
+		// A peer without addresses has no signed peer record either.
+		r.CertifiedRecord = nil
 		return true
 	}
 
@@ -107,6 +109,11 @@ func (r *addrsRecord) clean(now time.Time) (chgd bool) {
 	}
 
 	r.Addrs = removeExpired(r.Addrs, nowUnix)
+	if len(r.Addrs) == 0 {
+		// the signed peer record must not outlive the peer's last address;
+		// otherwise it reappears as soon as an unsigned address is added.
+		r.CertifiedRecord = nil
+	}
 
 	return r.dirty || len(r.Addrs) != addrsLen
 }
